@@ -145,6 +145,7 @@ INCLUDE = {
 
 def run_property(pid, tier, seed, logdir):
     os.environ.setdefault("VERIF_MIR_EXPLORE_S", "240" if tier == "quick" else "1800")
+    os.environ.setdefault("VERIF_Z3_TIMEOUT_MS", "60000" if tier == "quick" else "300000")
     obligations = _run_property(pid, tier, seed, logdir)
     for src, prefix, only in INCLUDE.get(pid, []):
         for o in _run_property(src, tier, seed, logdir):
@@ -509,6 +510,29 @@ def _run_property(pid, tier, seed, logdir):
             except (Unsupported, Unwind) as e:
                 obligations.append(dict(name=name, engine="mirsym", functions=[], bounds="", oracle="", stubs=common_stubs, tier=tier,
                                         verdict="inconclusive", reason=f"outside the encoder's subset: {e}", queries=0, solver_time_s=0, failed=[]))
+        from mirsym import props_json
+        jobs = []
+        for nch in (0, 1, 2):
+            def job(nch=nch):
+                t0 = time.time()
+                name = "c20_listing_hostname_%d_chars" % nch
+                bounds = ("the closure of http::serve_leases that renders a lease's host name (lifted verbatim by lib/lift.py) + http::json_string from MIR on host names of exactly %d characters, "
+                          "each an arbitrary Unicode scalar value (strings modelled as code-point sequences)" % nch)
+                oracle = "the fragment is `, \"host-name\": ` followed by a JSON string per RFC 8259 section 7 (no raw control character, quote or backslash; only the JSON escapes); no panic"
+                try:
+                    failed, ex, npaths, kinds = props_json.obligation(prog, en, nch)
+                    for f in failed:
+                        f["check"] = name
+                    return dict(name=name, engine="mirsym", functions=sorted(f.split("::")[-1] for f in ex.encoded_fns), bounds=bounds, oracle=oracle,
+                                stubs=["String / &str = sequence of code points (with_capacity, push, push_str, chars, as_str, concat summarised); UTF-8 encoding itself not modelled",
+                                       "format! not modelled: a fragment built with it is undecided"] + sorted(ex.used_summaries),
+                                tier=tier, **_vr(failed, ex), queries=ex.queries, solver_time_s=round(ex.solver_time, 2), failed=_dedup(failed), paths=npaths,
+                                path_kinds={str(k): v for k, v in kinds.items()}, wall_s=round(time.time() - t0, 1))
+                except (Unsupported, Unwind) as e:
+                    return dict(name=name, engine="mirsym", functions=[], bounds=bounds, oracle=oracle, stubs=[], tier=tier, verdict="inconclusive",
+                                reason=f"outside the encoder's subset: {e}", queries=0, solver_time_s=0, failed=[])
+            jobs.append(("c20_listing_hostname_%d_chars" % nch, job))
+        obligations.extend(run_jobs(jobs))
         return _with_replay(pid, obligations, logdir)
     po = props_pool.PoolObligations(prog, en, tier, None)
     from mirsym.interp import Exec
